@@ -1766,7 +1766,7 @@ Proof.
   rewrite (H l (or_introl eq_refl)). rewrite IH by (intros l' Hl; apply H; right; exact Hl). reflexivity.
 Qed.
 
-Lemma contained_catch_drop r : contained GCatchDrop r = true.
+Lemma contained_catch_loop r : contained GCatchLoop r = true.
 Proof. destruct r; reflexivity. Qed.
 
 (* what the listeners are handed, event by event *)
@@ -1800,27 +1800,28 @@ Proof.
     + apply IH.
 Qed.
 
-Lemma catch_drop_contains ls : contains GCatchDrop ls.
-Proof. intros l ev _. apply contained_catch_drop. Qed.
+Lemma catch_loop_contains ls : contains GCatchLoop ls.
+Proof. intros l ev _. apply contained_catch_loop. Qed.
 
 Lemma run_steps_guarded ls : forall steps cur acc,
-  run_steps GCatchDrop ls steps cur acc = (final_of steps cur, rev acc ++ deliveries_of ls steps).
-Proof. apply run_steps_contained, catch_drop_contains. Qed.
+  run_steps GCatchLoop ls steps cur acc = (final_of steps cur, rev acc ++ deliveries_of ls steps).
+Proof. apply run_steps_contained, catch_loop_contains. Qed.
 
-(* whatever the listeners do -- return, panic, panic with a payload whose destructor panics, any
-   subset of them, any number of them -- the outcome of a call whose listener invocations go through
-   EventListeners::emit (as repaired by afefac0) is the outcome the call path fixes by itself *)
+(* whatever the listeners do -- return, panic, panic with a payload whose destructor panics, nested to
+   ANY depth (drop_panic_payload drops 16 levels under catch_unwind and leaks the rest), any subset of
+   them, any number of them -- the outcome of a call whose listener invocations go through
+   EventListeners::emit / observe (as repaired by d1b49ff) is the outcome the call path fixes by itself *)
 Theorem listeners_cannot_change_outcome ls steps cur :
-  fst (run_steps GCatchDrop ls steps cur []) = final_of steps cur.
+  fst (run_steps GCatchLoop ls steps cur []) = final_of steps cur.
 Proof. rewrite run_steps_guarded. reflexivity. Qed.
 
 Corollary outcome_independent_of_listeners ls1 ls2 steps cur :
-  fst (run_steps GCatchDrop ls1 steps cur []) = fst (run_steps GCatchDrop ls2 steps cur []).
+  fst (run_steps GCatchLoop ls1 steps cur []) = fst (run_steps GCatchLoop ls2 steps cur []).
 Proof. rewrite !listeners_cannot_change_outcome. reflexivity. Qed.
 
 (* ... and every listener is handed every event, whatever the others did with it *)
 Theorem every_listener_gets_every_event ls steps cur :
-  snd (run_steps GCatchDrop ls steps cur []) = deliveries_of ls steps /\
+  snd (run_steps GCatchLoop ls steps cur []) = deliveries_of ls steps /\
   (forall ev, In (SEmit ev) steps -> In (ev, map (fun l => l ev) ls) (deliveries_of ls steps)) /\
   (forall ev i l, nth_error ls i = Some l -> nth_error (map (fun l => l ev) ls) i = Some (l ev)).
 Proof.
@@ -1841,7 +1842,7 @@ Fixpoint emits (ev : Z) (steps : list lstep) : nat :=
 (* per kind, in absolute numbers: a registered listener is invoked exactly once per emitted event *)
 Theorem per_kind_counts ls steps cur i l ev :
   nth_error ls i = Some l -> (forall e, l e <> Skipped) ->
-  count_kind i ev (snd (run_steps GCatchDrop ls steps cur [])) = Z.of_nat (emits ev steps).
+  count_kind i ev (snd (run_steps GCatchLoop ls steps cur [])) = Z.of_nat (emits ev steps).
 Proof.
   intros Hi Hl. rewrite run_steps_guarded. cbn [snd rev app]. unfold count_kind. f_equal.
   induction steps as [|s rest IH]; [reflexivity|].
@@ -1861,17 +1862,28 @@ Theorem bare_callbacks_refuted :
   fst (run_steps GBare ls steps (FOut 0 0) []) = FPanic /\
   final_of steps (FOut 0 0) = FOut 0 70 /\
   count_kind 1 0 (snd (run_steps GBare ls steps (FOut 0 0) [])) = 0%Z /\
-  count_kind 1 0 (snd (run_steps GCatchDrop ls steps (FOut 0 0) [])) = 1%Z.
+  count_kind 1 0 (snd (run_steps GCatchLoop ls steps (FOut 0 0) [])) = 1%Z.
 Proof. cbn. repeat split; reflexivity. Qed.
 
 (* ... and for invocations that catch the panic but drop its payload outside the guard
-   (EventListeners::emit before fix afefac0; reconnect's callback sites still): an ordinary panic is
-   contained, a payload whose destructor panics is not *)
+   (EventListeners::emit before fix afefac0; reconnect's callback sites before 56b9388): an ordinary
+   panic is contained, a payload whose destructor panics is not *)
 Theorem payload_dropped_outside_refuted :
   let steps := [SEmit 0; SOut 0 70] in
   fst (run_steps GCatch [(fun _ => Panics); (fun _ => Returns)] steps (FOut 0 0) []) = FOut 0 70 /\
-  fst (run_steps GCatch [(fun _ => Bombs); (fun _ => Returns)] steps (FOut 0 0) []) = FPanic /\
-  count_kind 1 0 (snd (run_steps GCatch [(fun _ => Bombs); (fun _ => Returns)] steps (FOut 0 0) [])) = 0%Z /\
-  fst (run_steps GCatchDrop [(fun _ => Bombs); (fun _ => Returns)] steps (FOut 0 0) []) = FOut 0 70 /\
-  count_kind 1 0 (snd (run_steps GCatchDrop [(fun _ => Bombs); (fun _ => Returns)] steps (FOut 0 0) [])) = 1%Z.
+  fst (run_steps GCatch [(fun _ => Bombs 1); (fun _ => Returns)] steps (FOut 0 0) []) = FPanic /\
+  count_kind 1 0 (snd (run_steps GCatch [(fun _ => Bombs 1); (fun _ => Returns)] steps (FOut 0 0) [])) = 0%Z /\
+  fst (run_steps GCatchDrop [(fun _ => Bombs 1); (fun _ => Returns)] steps (FOut 0 0) []) = FOut 0 70 /\
+  count_kind 1 0 (snd (run_steps GCatchDrop [(fun _ => Bombs 1); (fun _ => Returns)] steps (FOut 0 0) [])) = 1%Z.
+Proof. cbn. repeat split; reflexivity. Qed.
+
+(* ... and for invocations that drop the caught payload under a guard but discard the payload of a panic
+   raised by THAT drop bare (emit after afefac0 / observe after 56b9388, before d1b49ff): a payload
+   nested two levels deep escapes; the bounded drop loop contains it, and any deeper one *)
+Theorem nested_payload_refuted :
+  let steps := [SEmit 0; SOut 0 70] in
+  fst (run_steps GCatchDrop [(fun _ => Bombs 2); (fun _ => Returns)] steps (FOut 0 0) []) = FPanic /\
+  count_kind 1 0 (snd (run_steps GCatchDrop [(fun _ => Bombs 2); (fun _ => Returns)] steps (FOut 0 0) [])) = 0%Z /\
+  (forall d, fst (run_steps GCatchLoop [(fun _ => Bombs d); (fun _ => Returns)] steps (FOut 0 0) []) = FOut 0 70 /\
+             count_kind 1 0 (snd (run_steps GCatchLoop [(fun _ => Bombs d); (fun _ => Returns)] steps (FOut 0 0) [])) = 1%Z).
 Proof. cbn. repeat split; reflexivity. Qed.
